@@ -15,8 +15,8 @@
                         (findings/proposed/C16-ext-empty-key.diff)
      fix_empty_raddr  : tryReadRelativeAddrs rejects an empty raddr value ("raddr  rport 7")
                         (findings/proposed/C16-empty-raddr.diff) *)
-Definition fix_deep_equal : bool := false.
-Definition fix_marshal_rport0 : bool := false.
-Definition fix_nomination_size : bool := false.
-Definition fix_ext_empty_key : bool := false.
-Definition fix_empty_raddr : bool := false.
+Definition fix_deep_equal : bool := true.
+Definition fix_marshal_rport0 : bool := true.
+Definition fix_nomination_size : bool := true.
+Definition fix_ext_empty_key : bool := true.
+Definition fix_empty_raddr : bool := true.
